@@ -103,4 +103,12 @@ CLAIMS = {
          "independent lists; on the real client the mechanism attribute, the base64-decoded payload as a byte sequence (TLC compares it with "
          "<<0>> o user o <<0>> o secret for users/secrets from byte classes), nothing-sent-and-permanent when no common mechanism, permanent on <failure/>.",
     note="Trusted: TLC, the scripted server (element splitter, in-process CA with valid / wrong-host / untrusted / expired leaves), the harness's classification of client elements. Not asserted: error texts, IQ ids, the Permanent flag except where a property names it, whether STARTTLS is attempted in insecure mode, whether an optional legacy session is negotiated. WebSocket transport not yet driven. Exhaustive within the per-step alphabets in the evidence." + " base64 decoding and the reference bytes are computed by the Go standard library in the harness (DESIGN.md section 9).", technique=TECH),
+ "C16": dict(
+    text="ComponentSession.tla: header with a stream id of each class, the handshake, every reply class, stanzas routed inline in order, the "
+         "Component object reused for later connections. TLC checks established-iff-handshake / nothing-routed-unless-established / in-order and "
+         "emits every behaviour (2-3 connections); the scripted server plays each against a real Component, logs whether the digest equals "
+         "lower-case hex SHA-1(unescaped id + secret) for 4 secrets, the result, the state events and the handler sequence; TLC judges.",
+    note="Trusted: TLC, crypto/sha1 and hex of the Go standard library as the reference digest (the specification names the primitive, DESIGN.md "
+         "section 9), the scripted server. Only TCP (components refuse WebSocket addresses: C20).",
+    technique=TECH),
 }
